@@ -43,6 +43,30 @@ def run_family(res, fam, n, seed, builds=("default",), extra=(), glue="Col", glu
     return all_rows
 
 
+def run_direct(res, fam, n, seed, builds=("default",), extra=()):
+    """A family judged by its direct oracle only (observations are digests, not model terms): both builds
+    run the same seeded cases; returns the rows per build."""
+    wd = C.workdir(res.pid)
+    all_rows = {}
+    for build in builds:
+        tags = ("purego",) if build == "purego" else ()
+        binp = C.build_harness(tags=tags)
+        out = os.path.join(wd, "%s_%s_%d.tsv" % (fam, build, seed))
+        rc, log, stats, dt = C.run_harness(binp, fam, seed, n, res.tier, out, extra=list(extra))
+        if rc != 0:
+            raise C.Infra("harness %s (%s) failed:\n%s" % (fam, build, log[-2000:]))
+        rows = C.read_transcript(out)
+        for c, g, o in rows:
+            if o.startswith("FAIL"):
+                res.oracle_fail("%s [%s build]" % (c, build), o[5:])
+        res.account(rows)
+        for k, v in stats.items():
+            res.distribution["%s.%s.%s" % (fam, build, k)] = res.distribution.get("%s.%s.%s" % (fam, build, k), 0) + v
+        all_rows[build] = rows
+        os.remove(out)
+    return all_rows
+
+
 def compare_builds(res, rows_a, rows_b, what):
     """C15: the two builds must give the same observation on the same case (the case text differs only
     in the build symbol)."""
